@@ -133,9 +133,16 @@ func explore(args []string) {
 		var scExec, scPoints int64
 		scOutcomes := map[string]bool{}
 		complete := true
-		for _, cfg := range cfgs {
+		byConfig := len(cfgs) >= 2**nshards // many configurations: distribute configurations, not subtrees
+		for ci, cfg := range cfgs {
+			if byConfig && ci%*nshards != *shard {
+				continue
+			}
 			vexp.RunOnce(sc, cfg, nil, false) // warm-up: lazily initialised globals (type-keyed pools, heaps) must exist before exploring
 			ex := &vexp.Explorer{Sc: sc, Params: cfg, B: b, Shard: *shard, NShards: *nshards, Split: 2, Deadline: deadline}
+			if byConfig {
+				ex.Shard, ex.NShards = 0, 1
+			}
 			ex.Explore()
 			st := ex.St
 			scExec += st.Executions
